@@ -22,8 +22,8 @@ var (
 	tStr  = &Ty{K: "str"}
 )
 
-func tSet(a *Ty) *Ty { return &Ty{K: "set", A: a} }
-func tSeq(a *Ty) *Ty { return &Ty{K: "seq", A: a} }
+func tSet(a *Ty) *Ty   { return &Ty{K: "set", A: a} }
+func tSeq(a *Ty) *Ty   { return &Ty{K: "seq", A: a} }
 func tFn(a, b *Ty) *Ty { return &Ty{K: "fn", A: a, B: b} }
 
 type G struct {
@@ -595,6 +595,9 @@ func opGens() []opGen {
 			b := a + int64(g.rng.Intn(7)) - 2
 			if b > rv.MaxInt {
 				b = rv.MaxInt
+			}
+			if b < rv.MinInt {
+				b = rv.MinInt
 			}
 			if g.p(0.1) {
 				b = g.intLit()
